@@ -416,7 +416,7 @@ Section D3.
   Lemma tag_den3 st tag ha hc sw wtag st1 (dst : S.dstate) :
     match tag with
     | TagTok p t o nm =>
-      (5 <=? t) && (t <? 64) && (N.land o 1 =? 0) && (p <? 256) &&
+      (5 <=? t) && (t <? 64) && (p <? 256) &&
       match S.lookup_tag L p t with
       | Some r => (t_page r =? p) && (t_tok r =? t) && beq (P.B (t_name r)) nm
       | None => false
@@ -505,7 +505,18 @@ Section D3.
       assert (Hs2 : sub st2) by (exact (sub_ext _ _ (abs_seq_ext _ _ _ _ _ _ AS) Hs3)).
       assert (Hs1 : sub st1).
       { destruct (has_attr_table e); [exact (sub_ext _ _ (proj1 (abs_attrs_sx _ _ _ _ _ AA)) Hs2)|injection AA as _ <-; exact Hs2]. }
-      destruct (tag_den3 st tag _ _ sw wtag st1 dst Htag Hs1 H1 H2 AT) as (Hsw & me1 & dst0 & NM & R1 & R2).
+      assert (Htag' : match tag with
+                      | TagTok p t o nm => (5 <=? t) && (t <? 64) && (p <? 256) &&
+                          match S.lookup_tag L p t with
+                          | Some r => (t_page r =? p) && (t_tok r =? t) && beq (P.B (t_name r)) nm
+                          | None => false
+                          end
+                      | TagLit nm => okb nm && unknown_tag L nm
+                      end = true).
+      { destruct tag as [p t o nm|nm]; [|exact Htag].
+        repeat (apply andb_true_iff in Htag; destruct Htag as [Htag ?]).
+        repeat (apply andb_true_iff; split); assumption. }
+      destruct (tag_den3 st tag _ _ sw wtag st1 dst Htag' Hs1 H1 H2 AT) as (Hsw & me1 & dst0 & NM & R1 & R2).
       assert (ATT : exists dst2, S.den_attrs (S.mk_denv L tb) ws dst0 = Some (if (has_attr_table e) then map attr_event attrs else [], dst2) /\
                      S.ds_attrcp dst2 = attrcp st2 /\ S.ds_tagcp dst2 = tagcp st2).
       { destruct (has_attr_table e).
